@@ -478,6 +478,12 @@ def rec_programs():
     out += variants(P('oneof_inside_rec', nodes, 'A', 'O', tags=['rec', 'oneof', 'D9']),
                     [[R({'K1': ['raise:E1']}, recreq={'D': 1})], [R({}, recreq={'D': 1})], [R({'K1': ['raise:E1']}, recreq={'D': 0})]],
                     ['k1fails_it1', 'ok_it1', 'k1fails_it0'])
+    # ... and a started node (S) of the candidate that failed in the first iteration is still in flight when the
+    # sub-graph re-iterates: its execution belongs to the previous iteration (fix: outdated executions are stopped)
+    nodes = [N('A'), N('B0', I('p1', 'A')), N('F', I('p1', 'B0')), N('S', I('p1', 'B0')), N('P1', I('p1', 'F'), I('p2', 'S')),
+             N('FB', I('p1', 'B0')), N('D', OO('p1', ['P1', 'FB'])), N('O', RC('p1', 'B0', 'D', 2))]
+    out += variants(P('oneof_inside_rec_straggler', nodes, 'A', 'O', tags=['rec', 'oneof', 'D9']),
+                    [[R(recreq={'D': 1}, plan_it={'F': [['raise:E1'], ['ok']]})]], ['f_it1'])
     # recurrent sub-graph inside a candidate; an inner node fails only in the second iteration (epoch-dependent plan)
     nodes = [N('A'), N('S', I('p1', 'A')), N('M', I('p1', 'S')), N('D', I('p1', 'M')), N('K1', RC('p1', 'S', 'D', 2)), N('K2', I('p1', 'A')),
              N('O', OO('p1', ['K1', 'K2']))]
